@@ -67,7 +67,7 @@ def frMon (p : FRP) (m : CMon) : FRShape → Prop
       m.lastCode = none
   | .queued => m.handle = p.hd ∧ m.rust = [] ∧ m.inbuf = [1] ∧ m.got = [] ∧ m.slab = true ∧ m.given = 1 ∧
       m.returned = [] ∧ m.endDrops = 0 ∧ m.sent = [] ∧ m.win = [] ∧ m.started = true ∧ m.lastCode = some Host.COMPLETED
-  | .gone st _ _ => m.handle = p.hd ∧ st ≠ .copying ∧ m.endDrops = 1 ∧ ChanSpec.complete p.k m = .ok ()
+  | .gone st _ gv => m.handle = p.hd ∧ st ≠ .copying ∧ m.endDrops = 1 ∧ ChanSpec.complete p.k m = .ok () ∧ gv.length ≤ 1 ∧ m.returned.length ≤ 1
 
 def FRInvAt (p : FRP) (s : ChanSys) (m : CMon) (sh : FRShape) : Prop := s = frSys p sh ∧ frMon p m sh
 
@@ -235,7 +235,7 @@ theorem fr_gone (p : FRP) (m : CMon) (st : CopySt) (ni : Nat) (gv : List Nat) (h
     (hm : frMon p m (.gone st ni gv)) (l : CLabel)
     (hl : FRLegal p (frSys p (.gone st ni gv)) l) : FRGood p m ((frSys p (.gone st ni gv)).step l) := by
   simp only [frMon] at hm
-  obtain ⟨hmh, hst, hmd, hmc⟩ := hm
+  obtain ⟨hmh, hst, hmd, hmc, hgl, hrl⟩ := hm
   obtain ⟨hl, hopn⟩ := hl
   clear hopn
   have hst' : st = .idle ∨ st = .done := by cases st <;> simp at hst ⊢
@@ -245,10 +245,10 @@ theorem fr_gone (p : FRP) (m : CMon) (st : CopySt) (ni : Nat) (gv : List Nat) (h
   | deliver => fr_legal
   | close ex ans =>
     clear hl
-    cases ex <;> fr_eval <;> exact ⟨.gone st ni gv, by simp [FRInvAt, frSys, frMon, FRP.g0, FRP.t, hmh, hst, hmd, hmc]⟩
+    cases ex <;> fr_eval <;> exact ⟨.gone st ni gv, by simp [FRInvAt, frSys, frMon, FRP.g0, FRP.t, hmh, hst, hmd, hmc, hgl, hrl]⟩
   | _ =>
     clear hl
-    fr_eval <;> exact ⟨.gone st ni gv, by simp [FRInvAt, frSys, frMon, FRP.g0, FRP.t, hmh, hst, hmd, hmc]⟩
+    fr_eval <;> exact ⟨.gone st ni gv, by simp [FRInvAt, frSys, frMon, FRP.g0, FRP.t, hmh, hst, hmd, hmc, hgl, hrl]⟩
 
 /-- Every legal step from a state satisfying the invariant is good. -/
 theorem fr_step_safe (p : FRP) (s : ChanSys) (m : CMon) (l : CLabel) (hI : FRInv p s m) (hl : FRLegal p s l) :
